@@ -127,8 +127,8 @@ def _candidate(rng):
     nrules = rng.randint(nt + 1, nt + 7)
     lens = [0, 1, 1, 2, 2, 2, 3, 3, 3, 4]
     # swarm: some grammars have all right sides of one (maximal) length, some are nullable-heavy, some term-heavy
-    style = rng.choice(['mixed', 'mixed', 'maxlen', 'nullable', 'termheavy', 'chains'])
-    p_term = {'mixed': 50, 'maxlen': 50, 'nullable': 30, 'termheavy': 70, 'chains': 35}[style]
+    style = rng.choice(['mixed', 'mixed', 'maxlen', 'nullable', 'termheavy', 'chains', 'cycle', 'cycle'])
+    p_term = {'mixed': 50, 'maxlen': 50, 'nullable': 30, 'termheavy': 70, 'chains': 35, 'cycle': 55}[style]
     rules = []
     for i in range(nrules):
         lhs = i if i < nt else rng.randrange(nt)
@@ -147,6 +147,15 @@ def _candidate(rng):
             else:
                 rhs.append((False, rng.randrange(nt)))
         rules.append((lhs, rhs))
+    if style == 'cycle' and nt >= 3:
+        # nonterminals that refer to each other on the LEFT (A -> B x | a, B -> A y | b): first/nullable are fixed points
+        k = rng.randint(2, min(3, nt - 1))
+        cyc = rng.sample(range(1, nt), k)
+        for j, a in enumerate(cyc):
+            b = cyc[(j + 1) % k]
+            tail = [(True, rng.randrange(tc))] if rng.randrange(4) else [(False, rng.randrange(nt))]
+            rules.append((a, [(False, b)] + tail))
+            rules.append((a, [(True, rng.randrange(tc))] if rng.randrange(5) else []))
     rng.shuffle(rules)          # declaration order unrelated to nterms(...)
     if len(set((l, tuple(r)) for l, r in rules)) != len(rules):
         return None
